@@ -21,6 +21,8 @@ package disk
 //@   at_call os.MkdirAll requires $0 == dest && $1 == filemode
 //@   trace os.MkdirAll as MK bind mkerr
 //@   ensures result == mkerr
+// no shortcut: whether something (a file!) is in the way is the host's verdict
+//@   trace_ensures true : ^MK $
 
 // Copy dispatches on the kind of the source
 //@ func Copy [C02]
